@@ -285,7 +285,7 @@ def run_conformance(art, profile='dev', verbose=False, limit=None):
             it.stack.clear()
             continue
         except ModelError as e:
-            bad.append((s, ['ModelError: %s' % e]))
+            unsupported.append((s, 'ModelError: %s' % e))
             it.stack.clear()
             continue
         d = compare(n, so)
